@@ -151,6 +151,15 @@ Flatten(t) ==
         par          |-> [i \in Ix(ord) |-> [cmp |-> nd(i).cmp, cin |-> (nd(i).lk = "C" /\ nd(i).lg # 0), ck |-> nd(i).ck, pd |-> nd(i).pd, pn |-> nd(i).pn,
                                            pp |-> nd(i).pp, oc |-> nd(i).oc, od |-> nd(i).od, om |-> nd(i).om]]])
 
+\* Database._writeParams stores the parameter datasets of the definitions that are flagged `assigned` in the writing process
+\* (paramDefs.toWriteToDB()); a group that is not offered is absent from the file and reads back as defaults
+ParamGroups == {"pd", "pn", "pp"}
+Unset == "unset"
+Mask(f, flagged) == [f EXCEPT !.par = [i \in Ix(f.par) |->
+                       [f.par[i] EXCEPT !.pd = IF "pd" \in flagged THEN @ ELSE Unset,
+                                        !.pn = IF "pn" \in flagged THEN @ ELSE Unset,
+                                        !.pp = IF "pp" \in flagged THEN @ ELSE Unset]]]
+
 \* what h5py shows in layout/*
 RowKind(f) == Cat([i \in Ix(f.ltype) |-> [k \in 1..f.lcount[i] |-> f.ltype[i]]])
 FileObs(f) == [type         |-> f.type,
